@@ -2,6 +2,7 @@ package dnsmsg
 
 import (
 	"net"
+	"slices"
 
 	"github.com/AdguardTeam/golibs/syncutil"
 	"github.com/miekg/dns"
@@ -87,13 +88,28 @@ func (c *optCloner) clone(rr *dns.OPT) (clone *dns.OPT, full bool) {
 			optClone = opt
 		// TODO(a.garipov): Add more if necessary.
 		default:
-			return dns.Copy(rr).(*dns.OPT), false
+			return copyOPT(rr), false
 		}
 
 		clone.Option = append(clone.Option, optClone)
 	}
 
 	return clone, true
+}
+
+// copyOPT returns a deep copy of rr made without the pools.  [dns.Copy] copies
+// the address of a subnet option shallowly, and since the options of the copy
+// end up in the pools when it is disposed of, a later clone would write into
+// the address of the still-live original.
+func copyOPT(rr *dns.OPT) (clone *dns.OPT) {
+	clone = dns.Copy(rr).(*dns.OPT)
+	for _, opt := range clone.Option {
+		if sn, ok := opt.(*dns.EDNS0_SUBNET); ok {
+			sn.Address = slices.Clone(sn.Address)
+		}
+	}
+
+	return clone
 }
 
 // put returns structures from rr into c's pools.
